@@ -13,15 +13,16 @@ Rec == ndJsonDeserialize(IOEnv.TRACE)
 HexLen(s) == Len(s) \div 2
 P == INSTANCE WriterProp WITH Empty <- "", BLen <- HexLen
 
-VARIABLES l,      \* next line of the trace
+VARIABLES lk,     \* thread inside the sink's critical section (0 = nobody), from the lock hooks
+          l,      \* next line of the trace
           mon,    \* property monitor (per run: re-initialised by every reset event)
           cnt,    \* I/O counter monitor (C14)
           run,    \* line of the reset event that started the current run
           bad     \* accumulated over all runs: <<property, rule, run line, event line>>, first per rule and run
 
-vars == <<l, mon, cnt, run, bad>>
+vars == <<lk, l, mon, cnt, run, bad>>
 
-Init == /\ l = 1 /\ run = 0 /\ bad = {}
+Init == /\ l = 1 /\ run = 0 /\ bad = {} /\ lk = 0
         /\ mon = P!MonInit(0, "") /\ cnt = P!CntInit
 
 E == Rec[l]
@@ -29,24 +30,32 @@ E == Rec[l]
 Note(b, vs) == IF Cardinality(b) > 400 THEN b ELSE b \cup { <<v[1], v[2], run, l>> : v \in vs }
 Step(m2, c2) == /\ mon' = m2 /\ cnt' = c2
                 /\ bad' = Note(bad, (m2.viol \ mon.viol) \cup (c2.viol \ cnt.viol))
-                /\ l' = l + 1 /\ UNCHANGED run
+                /\ l' = l + 1 /\ UNCHANGED <<run, lk>>
 
 Reset == /\ E.ev = "reset"
          /\ mon' = P!MonInit(E.cap, E.term) /\ cnt' = P!CntInit
-         /\ run' = l /\ l' = l + 1 /\ UNCHANGED bad
+         /\ run' = l /\ l' = l + 1 /\ lk' = 0 /\ UNCHANGED bad
 Call  == /\ E.ev = "call"  /\ Step(P!MonCall(mon, E.op, E.hex), cnt)
 Att   == /\ E.ev = "att"   /\ E.hex # "?"
          /\ Step(P!MonAtt(mon, E.hex, E.ok, E.kind), P!CntAtt(cnt, E.hex, E.ok))
 \* a refused attempt whose bytes could not be observed from outside the sink
 AttHidden == /\ E.ev = "att" /\ E.hex = "?"
-             /\ Step([mon EXCEPT !.fail = TRUE, !.failK = E.kind, !.faults = @ + 1], cnt)
+             /\ Step([mon EXCEPT !.fail = TRUE, !.failK = E.kind, !.faults = @ + 1],
+                     [cnt EXCEPT !.erPk = @ + 1, !.erBy = @ + E.len])
+\* C12: the lock hooks of the shared buffered sinks - critical sections never overlap
+Lock   == /\ E.ev = "lock"
+          /\ bad' = Note(bad, IF lk # 0 THEN {<<"C12", "critical-section-entered-while-another-thread-is-inside">>} ELSE {})
+          /\ lk' = E.t /\ l' = l + 1 /\ UNCHANGED <<mon, cnt, run>>
+Unlock == /\ E.ev = "unlock"
+          /\ bad' = Note(bad, IF lk # E.t THEN {<<"C12", "critical-section-left-by-a-thread-that-is-not-inside">>} ELSE {})
+          /\ lk' = 0 /\ l' = l + 1 /\ UNCHANGED <<mon, cnt, run>>
 Ret   == /\ E.ev = "ret"   /\ Step(P!MonRet(mon, E.ok, E.n, E.kind), cnt)
 Panic == /\ E.ev = "panic" /\ Step(P!MonPanic(mon), cnt)
 Stats == /\ E.ev = "stats" /\ Step(mon, P!CntStats(cnt, E.bs, E.ps, E.bd, E.pd))
 \* implementation-state snapshots are for the replay comparison, not for the monitor
 Skip  == /\ E.ev \in {"st", "note"} /\ Step(mon, cnt)
 
-Next == l <= Len(Rec) /\ (Reset \/ Call \/ Att \/ AttHidden \/ Ret \/ Panic \/ Stats \/ Skip)
+Next == l <= Len(Rec) /\ (Reset \/ Call \/ Att \/ AttHidden \/ Ret \/ Panic \/ Stats \/ Skip \/ Lock \/ Unlock)
 Spec == Init /\ [][Next]_vars
 
 \* printed exactly once, in the state that has consumed the whole trace
